@@ -856,6 +856,13 @@ impl endpoint::Session for Session {
                 }
             }
 
+            // The deliveries that are settled by the echo are forgotten, as those settled by
+            // the peer are
+            for delivery_id in delivery_ids.iter() {
+                self.delivery_tag_by_id
+                    .remove(&(disposition.role.clone(), *delivery_id));
+            }
+
             let chunk_inds = consecutive_chunk_indices(&delivery_ids[..]);
 
             let mut dispositions = Vec::with_capacity(chunk_inds.len().saturating_add(1));
